@@ -738,6 +738,9 @@ func init() {
 		Run:    runC04,
 		Floors: func(c *Cov, tier string) []string {
 			var miss []string
+			if n := c.Matrix["C04_body_version_words"]["ok=false/mints=0"]; n < 18 {
+				miss = append(miss, fmt.Sprintf("body version words refused without a mint: %d", n))
+			}
 			for _, ac := range AmountClasses {
 				if c.Matrix["C04_minted_classes"][ac.Name] == 0 {
 					miss = append(miss, "amount class never minted: "+ac.Name)
